@@ -233,7 +233,8 @@ Rx ==
   /\ LET r == At(rq, K, <<>>)
          s == At(sq, K, <<>>)
          b == At(blk, K, FALSE)
-         k == e.k
+         \* a closed or draining connection still counts the frames it skips over: nothing is processed
+         k == IF e.pre.st >= 2 THEN 0 ELSE e.k
          inject == e.cls = "inject"
          F == e.fr
          w == At(wire, e.orig, [n |-> -1, c |-> -1, fr |-> <<>>])
